@@ -307,7 +307,7 @@ Fixpoint frag (e : expr) : bool :=
   | EValue _ => true
   | EOption _ dflt dom =>
       match dflt with Some d => frag d | None => true end &&
-      match dom with None => true | Some _ => false end
+      match dom with None => true | Some d => frag d end
   | EApply a b => frag a && frag b
   | EBind src tbl dflt =>
       frag src &&
